@@ -4,7 +4,7 @@
 cd "$(dirname "$0")" || exit 2
 OUT=/var/tmp/verif-apalache-$$
 ok=0
-run() { timeout 900 apalache-mc check --cinit=ConstInit --init=$1 --inv=$2 --length=$3 --out-dir=$OUT LadderInd.tla 2>&1 | grep -q "EXITCODE: OK"; }
+run() { timeout -s KILL 900 apalache-mc check --cinit=ConstInit --init=$1 --inv=$2 --length=$3 --out-dir=$OUT LadderInd.tla 2>&1 | grep -q "EXITCODE: OK"; }
 run Init IndInv 0 && echo "APALACHE-OK Init => IndInv" || { echo "APALACHE-FAIL Init => IndInv"; ok=1; }
 run IndInit IndInv 1 && echo "APALACHE-OK IndInv /\\ Next => IndInv'" || { echo "APALACHE-FAIL induction step"; ok=1; }
 run IndInit FinalIsFirstSuccess 0 && echo "APALACHE-OK IndInv => FinalIsFirstSuccess" || { echo "APALACHE-FAIL IndInv => FinalIsFirstSuccess"; ok=1; }
